@@ -109,6 +109,9 @@ pub mod rrt;
 #[path = "path_plan/rrt_to.rs"]
 mod rrt_to;
 
+#[cfg(feature = "verif_hooks")]
+pub mod verif_hooks;
+
 #[cfg(test)]
 #[cfg(feature = "allow_filesystem")]
 mod tests;
